@@ -161,15 +161,37 @@ def render_int(rng, i): return str(i)
 
 
 def render_num(rng, v):
+    """any RFC spelling of the number: integer part, optional fraction, optional exponent in either case and sign"""
     if isinstance(v, int):
-        if rng.random() < 0.1 and v != 0 and v % 10 == 0:
+        if v == 0 and rng.random() < 0.5:
+            return rng.choice(["0", "-0", "0e0", "0E1", "-0E2", "0e+3", "0E+0", "-0e0"])
+        if rng.random() < 0.3 and v != 0 and v % 10 == 0:
             k = 0; m = v
             while m % 10 == 0 and m != 0: m //= 10; k += 1
-            return "%d%s%s%d" % (m, rng.choice("eE"), rng.choice(["", "+"]), k)
+            j = rng.randint(1, k)                      # move j of the k trailing zeros into the exponent
+            return "%d%s%s%s%d" % (m, "0" * (k - j), rng.choice("eE"), rng.choice(["", "+"]), j)
+        if rng.random() < 0.1:
+            return "%d%s%s0" % (v, rng.choice("eE"), rng.choice(["", "+"]))
         return str(v)
     r = repr(v)
     if "inf" in r or "nan" in r: raise ValueError(r)
     if "e" not in r and "." not in r: r += ".0"
+    if rng.random() < 0.5:
+        import decimal, math
+        with decimal.localcontext() as ctx:
+            ctx.prec = 60
+            d = decimal.Decimal(r)
+            k = rng.randint(-3, 3)
+            body = format(d.scaleb(-k), "f")
+        if rng.random() < 0.3 and "." in body: body += "0" * rng.randint(1, 2)
+        if k < 0: ex = rng.choice("eE") + str(k)
+        elif k == 0: ex = rng.choice(["", "e0", "E+0", "e-0", "E-0"])
+        else: ex = rng.choice("eE") + rng.choice(["", "+"]) + str(k)
+        if "." not in body and "-" not in ex: body += ".0"          # without a fraction or a negative exponent it would be an integer literal
+        t = body + ex
+        try:
+            if float(t) == v and math.copysign(1, float(t)) == math.copysign(1, v): return t
+        except ValueError: pass
     return r.replace("e", rng.choice("eE")) if rng.random() < 0.3 else r
 
 
